@@ -1,6 +1,8 @@
 """C05 — acquisition values and success probabilities mean what they claim."""
 import math
 
+import random
+
 import numpy
 
 from lib import common as C
@@ -8,7 +10,7 @@ from lib import gpgen
 from py2v import gen
 
 PROP = "C05"
-PROPS_FILES = ["Props/C05.v", "Props/C05_incumbent.v", "Props/C05_qei.v", "Props/C05_qeif.v"]
+PROPS_FILES = ["Props/C05.v", "Props/C05_incumbent.v", "Props/C05_qei.v", "Props/C05_qeif.v", "Props/C05_qeif_refuted.v"]
 ASSUMPTIONS = [
   "real arithmetic (Coq R / Coquelicot); Phi := 1/2 + RInt pdf 0 z, so Phi' = pdf is proved; 0 < Phi < 1 and z*Phi(z) -> 0 at -infinity (Gaussian integral facts H_Phi_range, H_Phi_tail) are assumptions",
   "E[max(best - Y, 0)] is characterised through its derivative in the incumbent (= Phi(z) = P(Y <= best)); the improper integral itself is not formalised: the searcher compares with numerical quadrature",
@@ -617,6 +619,8 @@ def oracle(inp):
   if inp.get("kind") == "qei":
     return qei_oracle(inp)
   if inp.get("kind") == "qeif":
+    if inp.get("regime") == "fallback-finding":
+      return qeif_agreement_oracle(inp)
     return qeif_oracle(inp)
   if "gp" not in inp:     # a correspondence case of another kind (batching / incumbents): nothing to re-evaluate here
     return None
@@ -867,6 +871,52 @@ def qeif_expected(inp):
   return [t / executed for t in tot], best, stats
 
 
+QEIF_FALLBACK_SIG = "C05:qeif:fallback-counts-the-improvement-of-an-infeasible-pending-point"
+
+
+def qeif_fallback_instance(rng=None):
+  """A call in which NO sample can contribute to the expected improvement over feasible points: the single candidate is feasible
+  (sampled constraint value always below the threshold) but never improves (objective mean 10 above the incumbent 0), the pending point
+  improves by about 5 but is never feasible (sampled constraint value always above the threshold).  The exact value is therefore 0 for
+  every draw; the estimator's whole-pass fallback returns success-probability(candidate) * max(0, best - min over ALL points)."""
+  import random as _r
+  rng = rng or _r.Random(20260930)
+  zs = [rng.randint(-8, 8) / 4.0 for _ in range(2 * 64 + 8)]
+  return dict(kind="qeif", q=1, p=1, dim=1, sets=[[[0.0]]], pending=[[1.0]], hist=[[9.0]], hist_values=[0.0], best0=0.0,
+              means=[[[0.0], 10.0], [[1.0], -5.0]], factors=[[[[0.0]], [[1.0, 0.0], [0.0, 1.0]]]],
+              fmodels=[dict(threshold=0.0, means=[[[0.0], -8.0], [[1.0], 8.0]], probs=[[[0.0], 1.0], [[1.0], 0.0], [[9.0], 1.0]],
+                            factors=[[[[0.0]], [[1.0, 0.0], [0.0, 1.0]]]])],
+              regime="fallback-finding", N=64, B=64, entry="direct", batch=None, as3d=False, stream=zs)
+
+
+def qeif_agreement_oracle(inp):
+  """The clause 'Monte-Carlo parallel improvement with pending points and failure models agrees with the exact value within Monte-Carlo
+  error' on a scripted posterior where the improvement over the FEASIBLE points is identically zero (no randomness left: the exact value
+  and every admissible estimate are 0)."""
+  from fractions import Fraction as F
+  got = run_qeif_case(inp)
+  per_set, fms, mp, _ = qeif_tables(inp)
+  c = inp["q"] + inp["p"]
+  best = F(inp["hist_values"][0])
+  b = min(inp["B"], inp["N"])
+  executed = -(-inp["N"] // b) * b
+  for k, ((mk, L), fl, pr) in enumerate(per_set):
+    m = [F(v) for v in mk + mp]
+    for d in range(executed):
+      z = [F(v) for v in inp["stream"][d * c:(d + 1) * c]]
+      for j in range(c):
+        y = m[j] + sum(F(L[j][l]) * z[l] for l in range(c))
+        feas = all(F((fl[i][0] + fms[i][0])[j]) + sum(F(fl[i][1][j][l]) * z[l] for l in range(c)) < F(fms[i][1]) for i in range(len(fms)))
+        if feas and y < best:
+          return None     # some sample does improve over a feasible point: not the zero-variance situation this oracle decides
+    if got["out"][k] != 0.0:
+      return dict(signature=QEIF_FALLBACK_SIG, input=inp, observed=got["out"], expected=[0.0] * len(per_set),
+                  what="Monte-Carlo parallel EI with failure models: no sample improves at a feasible point (the exact expected improvement over feasible points is 0 "
+                       "whatever the draws), yet the estimate is positive: the whole-pass fallback weights max(0, best - min over ALL points), the infeasible pending "
+                       "point included, by the candidate's success probability", oracle="exact rational evaluation of every sample's feasibility and improvement")
+  return None
+
+
 def qeif_oracle(inp):
   """the returned doubles must be the correctly rounded values of the rationals of qeif_expected, the incumbent exactly"""
   try:
@@ -892,6 +942,13 @@ def qeif_oracle(inp):
 
 def search(ctx, hints, broken):
   fails, n = [], 0
+  # the registered finding (KNOWN_FINDINGS.json), exhibited on every run: deterministic instance + a few variants of the same structure
+  for k in range(4):
+    inst = qeif_fallback_instance(None if k == 0 else random.Random(f"qeif-fallback:{ctx.seed}:{k}"))
+    n += 1
+    r = qeif_agreement_oracle(inst)
+    if r and r["signature"] not in {f["signature"] for f in fails}:
+      fails.append(r)
   for h in hints:
     if isinstance(h.get("input"), dict) and h["input"].get("kind") in ("qei", "qeif"):
       n += 1
